@@ -142,7 +142,13 @@ def run_check(prop, tier, seed, jobs, t0, build=True):
     broken = {t: a for t, a in aud.items() if not a['ok']}
     if scan_hits:
         broken['<source-scan>'] = {'ok': False, 'why': 'forbidden construct in Lean sources: ' + '; '.join(scan_hits[:5])}
-    discharged = obligations - len([t for t in broken if t != '<source-scan>'])
+    checker_note = 'not run (quick tier)'
+    if tier == 'thorough' and build:
+        ok, out = core.leanchecker(prop)
+        checker_note = 'ok' if ok else 'FAILED'
+        if not ok:
+            broken['<leanchecker>'] = {'ok': False, 'why': 'leanchecker rejected the compiled modules: ' + out[-300:]}
+    discharged = obligations - len([t for t in broken if not t.startswith('<')])
     if obligations == 0:
         raise InfraError(f'no obligations listed for {prop} in lean/obligations.json')
 
@@ -257,6 +263,7 @@ def run_check(prop, tier, seed, jobs, t0, build=True):
         'discharged': discharged,
         'checker_cmd': 'cd lean && lake build PjrpcModel && lake env lean Audit/<property>_<module>.lean  (#print axioms per theorem)',
         'trusted_base': core.TRUSTED_BASE,
+        'leanchecker': checker_note,
         'theorems': {t: {'axioms': a.get('axioms', []), 'ok': a['ok'], 'module': a.get('module')} for t, a in aud.items()},
         'evaluations': evaluations,
         'distinct_nontrivial': len(distinct),
